@@ -365,7 +365,7 @@ namespace
       std::vector<int> children(size_t(ncell_c), 0);
       std::vector<int> colpos(size_t(nc), -1);
       // coarse cell barycentres and radii for a cheap pre-selection of parent candidates
-      std::vector<ImgPoint> cbary(size_t(ncell_c)); std::vector<double> crad(size_t(ncell_c), 0.0);
+      std::vector<ImgPoint> cbary((size_t(ncell_c))); std::vector<double> crad(size_t(ncell_c), 0.0);
       {
         const std::vector<DomPoint> corners = RefCell<ShapeType>::template lattice<DomPoint>(1);
         for(Index cc = 0; cc < ncell_c; ++cc)
